@@ -31,7 +31,7 @@ pub struct Style {
     pub equal_as_range: bool,
     /// print the default time selector as "00:00-24:00" and a selector-less rule as "24/7 <modifier>"
     pub explicit_full_day: bool,
-    /// print `a-9999` years as `a+`, nth ranges as lists
+    /// print `a-9999` years as `a+`, nth ranges as ranges; when false: nth entries one by one, backwards (negative first)
     pub alt_forms: bool,
 }
 
@@ -289,6 +289,11 @@ fn p_nth(from_start: &[bool; 5], from_end: &[bool; 5], st: &Style) -> String {
         if *set {
             parts.push(format!("-{}", k + 1));
         }
+    }
+    // the order of the entries of an nth list is free (the value is a mask): the non-canonical
+    // style writes them backwards, negative entries first (`Th[-1,2]`)
+    if !st.alt_forms {
+        parts.reverse();
     }
     format!("[{}]", parts.join(","))
 }
